@@ -12,6 +12,11 @@ package transport
 import (
 	"bytes"
 	"fmt"
+	"runtime"
+	"runtime/debug"
+	"sort"
+	"strings"
+	"sync"
 	"testing"
 	"time"
 
@@ -20,7 +25,9 @@ import (
 	"hop.computer/hop/authkeys"
 	"hop.computer/hop/certs"
 	"hop.computer/hop/keys"
+	"hop.computer/hop/pkg/verifhook"
 	"verif.local/vlib"
+	"verif.local/vlib/simnet"
 )
 
 // identity of the counterpart (the party being judged)
@@ -459,4 +466,556 @@ func TestVerifC01Random(t *testing.T) {
 		}
 		return c
 	}})
+}
+
+// ---------------------------------------------------------------------------------------------------------------------
+// Family "interrupted": no peer ever proves anything (or the proof arrives late), several goroutines share one Client,
+// Close lands at a generated virtual time. Every entry point that reports success implies a completed handshake:
+// Handshake()==nil, and Write/WriteMsg/Read/ReadMsg returning nil (they run the handshake first). The oracle's ground
+// truth is what the network delivered: success requires that the server's PROVING message (ServerAuth in discoverable
+// mode, ServerResponseHidden in hidden mode) had been delivered to the client's socket before the call returned.
+
+type c01iCaller struct {
+	Entry   int `json:"entry"`   // 0 Handshake, 1 WriteMsg, 2 Write, 3 ReadMsg, 4 Read
+	DelayUs int `json:"delayUs"` // virtual start delay
+}
+
+type c01iYield struct {
+	Point int `json:"p"`
+	Hit   int `json:"hit"`
+	Us    int `json:"us"`
+}
+
+type c01iCase struct {
+	Hidden      bool         `json:"hidden"`
+	Reach       bool         `json:"reach"`     // the client's datagrams reach the server (false: the server is absent)
+	Pass        int          `json:"pass"`      // how many of the server's handshake answers reach the client (0: silent; 1: stops answering after the first; >=2: all)
+	LatencyUs   int          `json:"latencyUs"` // one-way latency of the network
+	HSTimeoutMs int          `json:"hsTimeoutMs"`
+	Callers     []c01iCaller `json:"callers"`
+	CloseAtUs   int          `json:"closeAtUs"` // virtual time of Close; <0: only after every caller returned (or 20 s)
+	Closers     int          `json:"closers"`   // concurrent Close calls
+	Yields      []c01iYield  `json:"yields"`
+}
+
+var c01iEntries = []string{"Handshake", "WriteMsg", "Write", "ReadMsg", "Read"}
+
+// all of them are reached with no mutex held (see C17, which sleeps at the same points)
+var c01iPoints = []string{
+	"transport.Client.Handshake.elected", "transport.Client.Handshake.beforeOpen", "transport.Client.Handshake.beforeDone",
+	"transport.Client.Close.elected", "transport.Client.Close.connClosed", "transport.Client.Close.beforePublish",
+}
+
+type c01iResult struct {
+	entry     int
+	err       error
+	proof     bool   // the proving message had been delivered to the client when the call returned
+	panicked  string // panic value of the call itself
+	panicSig  string
+	probePan  string // panic of the write that followed a successful Handshake()
+	probeSig  string
+	returned  bool
+}
+
+func c01iScenario(c c01iCase, v *vlib.Verdict) (out []c01iResult, closeReturned bool) {
+	w := vGetWorld()
+	env := vStartServer(w.ServerConfig(c.Hidden))
+	defer env.Stop()
+	proofType := byte(MessageTypeServerAuth)
+	if c.Hidden {
+		proofType = byte(MessageTypeServerResponseHidden)
+	}
+	var fmu sync.Mutex
+	answers := 0
+	lat := time.Duration(c.LatencyUs) * time.Microsecond
+	env.Net.Filter = func(d simnet.Datagram) []simnet.Datagram {
+		if simnetEq(d.Dst, vCliAddr) {
+			fmu.Lock()
+			k := answers
+			answers++
+			fmu.Unlock()
+			if k >= c.Pass {
+				return nil
+			}
+		} else if !c.Reach {
+			return nil
+		}
+		d.Delay = lat
+		return []simnet.Datagram{d}
+	}
+	proofDelivered := func() bool {
+		for _, d := range env.Net.DeliveredSnapshot() {
+			if simnetEq(d.Dst, vCliAddr) && simnetEq(d.Src, vSrvAddr) && len(d.Data) > 0 && d.Data[0] == proofType {
+				return true
+			}
+		}
+		return false
+	}
+	ccfg := w.ClientConfig(c.Hidden, false)
+	ccfg.HSTimeout = time.Duration(c.HSTimeoutMs) * time.Millisecond
+	cli, _ := env.NewClient(vCliAddr, ccfg)
+	// yield schedule
+	sched := map[string]map[int]int{}
+	for _, y := range c.Yields {
+		pt := c01iPoints[y.Point%len(c01iPoints)]
+		if sched[pt] == nil {
+			sched[pt] = map[int]int{}
+		}
+		sched[pt][y.Hit] = y.Us
+	}
+	hits := map[string]int{}
+	var hmu sync.Mutex
+	verifhook.Set(func(point string) {
+		m := sched[point]
+		if m == nil {
+			return
+		}
+		hmu.Lock()
+		k := hits[point]
+		hits[point]++
+		hmu.Unlock()
+		us, ok := m[k]
+		if !ok {
+			return
+		}
+		if us == 0 {
+			runtime.Gosched()
+			return
+		}
+		time.Sleep(time.Duration(us) * time.Microsecond)
+	})
+	defer verifhook.Set(nil)
+	out = make([]c01iResult, len(c.Callers))
+	var omu sync.Mutex
+	var wg sync.WaitGroup
+	// one reader at a time: Handle.Read takes a sync.Mutex, and a goroutine waiting for a mutex whose holder is parked on the
+	// virtual clock freezes the bubble (see C17)
+	readSem := make(chan struct{}, 1)
+	guarded := func(f func()) (val, sig string) {
+		defer func() {
+			if r := recover(); r != nil {
+				val = fmt.Sprint(r)
+				sig = vlib.PanicSig(r, string(debug.Stack()))
+			}
+		}()
+		f()
+		return
+	}
+	for i, ca := range c.Callers {
+		wg.Add(1)
+		go func(i int, ca c01iCaller) {
+			defer wg.Done()
+			r := &c01iResult{entry: ca.Entry}
+			defer func() { omu.Lock(); out[i] = *r; omu.Unlock() }()
+			if ca.DelayUs > 0 {
+				time.Sleep(time.Duration(ca.DelayUs) * time.Microsecond)
+			}
+			buf := make([]byte, 2000)
+			r.panicked, r.panicSig = guarded(func() {
+				switch ca.Entry {
+				case 0:
+					r.err = cli.Handshake()
+				case 1:
+					r.err = cli.WriteMsg(vlib.Fill(uint64(i), 40))
+				case 2:
+					_, r.err = cli.Write(vlib.Fill(uint64(i), 40))
+				case 3:
+					readSem <- struct{}{}
+					defer func() { <-readSem }()
+					_, r.err = cli.ReadMsg(buf)
+				default:
+					readSem <- struct{}{}
+					defer func() { <-readSem }()
+					_, r.err = cli.Read(buf)
+				}
+			})
+			r.proof = proofDelivered()
+			if r.panicked == "" && r.err == nil && ca.Entry == 0 {
+				// what every caller does after a successful handshake: use the connection
+				r.probePan, r.probeSig = guarded(func() { _ = cli.WriteMsg(vlib.Fill(uint64(100+i), 40)) })
+			}
+			r.returned = true
+		}(i, ca)
+	}
+	callersDone := make(chan struct{})
+	go func() { wg.Wait(); close(callersDone) }()
+	if c.CloseAtUs >= 0 {
+		time.Sleep(time.Duration(c.CloseAtUs) * time.Microsecond)
+	} else {
+		select {
+		case <-callersDone:
+		case <-time.After(20 * time.Second):
+		}
+	}
+	closed := make(chan struct{}, 4)
+	for i := 0; i < 1+c.Closers%3; i++ {
+		go func() { cli.Close(); closed <- struct{}{} }()
+	}
+	select {
+	case <-closed:
+		closeReturned = true
+	case <-time.After(30 * time.Second):
+	}
+	select {
+	case <-callersDone:
+	case <-time.After(30 * time.Second):
+	}
+	// a copy, so that a caller that never returns cannot race with the verdict
+	res := make([]c01iResult, len(out))
+	omu.Lock()
+	defer omu.Unlock()
+	for i := range out {
+		if out[i].returned {
+			res[i] = out[i]
+		} else {
+			res[i] = c01iResult{entry: c.Callers[i].Entry}
+		}
+	}
+	return res, closeReturned
+}
+
+func c01iRun(t *testing.T) func(c c01iCase, v *vlib.Verdict) {
+	return func(c c01iCase, v *vlib.Verdict) {
+		var rs []c01iResult
+		res := vlib.Bubble(t, 60*time.Second, func() { rs, _ = c01iScenario(c, v) })
+		verifhook.Set(nil)
+		if res.Hung {
+			v.Inconclusive = "bubble hung in real time (C01 interrupted)"
+			return
+		}
+		mode := map[bool]string{false: "discoverable", true: "hidden"}[c.Hidden]
+		if res.Panic != "" {
+			if res.Leak() || res.Deadlock() {
+				// termination of every call is C17's clause; here it only means that the case cannot be judged
+				v.Inconclusive = "calls not released (C17's clause): " + fmt.Sprint(vlib.BlockedHopFrames(res.Stacks))
+			} else {
+				v.Failf(vlib.PanicSig(res.Panic, res.Stacks), "panic: %s", res.Panic)
+			}
+			return
+		}
+		need := 2
+		if c.Hidden {
+			need = 1
+		}
+		possible := c.Reach && c.Pass >= need
+		succ, fails := 0, 0
+		for i, r := range rs {
+			name := c01iEntries[r.entry]
+			if r.panicked != "" {
+				v.Failf(r.panicSig, "Client.%s (caller %d of %d on one client, proof possible: %v) panicked: %s", name, i, len(rs), possible, r.panicked)
+				return
+			}
+			if !r.returned {
+				v.Inconclusive = "caller did not return (C17's clause)"
+				return
+			}
+			if r.err == nil {
+				succ++
+				if !r.proof {
+					what := map[bool]string{true: "the server's proving message had not reached the client", false: "no proving message can ever reach this client"}[possible]
+					v.Failf(fmt.Sprintf("C01:client-reports-success-without-server-proof:%s:%s", mode, name), "Client.%s returned nil (caller %d of %d concurrent callers, Close at %d us) although %s (reach=%v pass=%d latency=%dus)", name, i, len(rs), c.CloseAtUs, what, c.Reach, c.Pass, c.LatencyUs)
+					return
+				}
+				if r.probePan != "" {
+					v.Failf(r.probeSig, "after Client.Handshake returned nil the first WriteMsg panicked: %s", r.probePan)
+					return
+				}
+			} else {
+				fails++
+			}
+		}
+		// sanity / non-vacuity: an honest reachable peer, no early Close, a timeout far above the round trips: the writers and
+		// handshakers succeed
+		if possible && c.CloseAtUs < 0 && (c.HSTimeoutMs == 0 || c.HSTimeoutMs >= 1000) {
+			for i, r := range rs {
+				if r.entry <= 2 && r.err != nil {
+					v.Failf("C01:sanity:honest-server-rejected:"+mode+":concurrent-callers", "caller %d (Client.%s) failed against an honest reachable server without any Close: %v", i, c01iEntries[r.entry], r.err)
+					return
+				}
+			}
+		}
+		v.Label("interrupted:" + mode)
+		switch {
+		case !c.Reach:
+			v.Label("interrupted:server-absent")
+		case c.Pass == 0:
+			v.Label("interrupted:server-silent")
+		case c.Pass < need:
+			v.Label("interrupted:server-stops-answering-mid-handshake")
+		default:
+			v.Label("interrupted:server-honest")
+		}
+		if c.CloseAtUs >= 0 {
+			v.Label("interrupted:close-at-generated-time")
+		}
+		if succ > 0 && fails > 0 {
+			v.Label("interrupted:some-callers-succeed-some-fail")
+		}
+		if succ > 0 {
+			v.Label("interrupted:success-with-proof")
+		}
+		if len(c.Yields) > 0 {
+			v.Label("interrupted:with-yield-schedule")
+		}
+		v.NonTrivial = len(c.Callers) >= 2 && c.CloseAtUs >= 0
+	}
+}
+
+func c01iGen(t *rapid.T) c01iCase {
+	c := c01iCase{Hidden: rapid.Bool().Draw(t, "hidden")}
+	c.Reach = rapid.SampledFrom([]bool{true, true, true, false}).Draw(t, "reach")
+	c.Pass = rapid.SampledFrom([]int{0, 0, 1, 9}).Draw(t, "pass")
+	c.LatencyUs = rapid.SampledFrom([]int{0, 1, 1000, 20000, 200000}).Draw(t, "latency")
+	c.HSTimeoutMs = rapid.SampledFrom([]int{0, 50, 2000, 2000}).Draw(t, "hst")
+	c.Callers = rapid.SliceOfN(rapid.Custom(func(t *rapid.T) c01iCaller {
+		return c01iCaller{
+			Entry:   rapid.SampledFrom([]int{0, 0, 0, 0, 1, 2, 3, 4}).Draw(t, "entry"),
+			DelayUs: rapid.SampledFrom([]int{0, 0, 1, 100, 1000, 30000, 500000}).Draw(t, "delay"),
+		}
+	}), 1, 6).Draw(t, "callers")
+	c.CloseAtUs = rapid.SampledFrom([]int{-1, 0, 1, 500, 2000, 40000, 90000, 450000, 900000, 3000000}).Draw(t, "closeAt")
+	c.Closers = rapid.IntRange(0, 2).Draw(t, "closers")
+	c.Yields = rapid.SliceOfN(rapid.Custom(func(t *rapid.T) c01iYield {
+		return c01iYield{Point: rapid.IntRange(0, len(c01iPoints)-1).Draw(t, "pt"), Hit: rapid.IntRange(0, 1).Draw(t, "hit"), Us: rapid.SampledFrom([]int{0, 1, 500, 50000}).Draw(t, "us")}
+	}), 0, 4).Draw(t, "yields")
+	return c
+}
+
+// TestVerifC01Interrupted: concurrent callers on one client, a peer that never proves anything (or late), Close at a
+// generated time.
+func TestVerifC01Interrupted(t *testing.T) {
+	vlib.Drive(t, vlib.Spec[c01iCase]{ID: "C01", Quick: 4000, Gen: c01iGen, Run: c01iRun(t)})
+}
+
+// ---------------------------------------------------------------------------------------------------------------------
+// Family "real clock": VerifyConfig.CurrentTime is left zero on both sides (what production callers do, config.go), so
+// certificate validity is judged against the clock - the bubble's virtual clock. One long-running server, a generated
+// SEQUENCE of handshakes separated by generated sleeps, certificates whose validity windows begin and end while the
+// sequence runs. Reference decision: the certificate is valid at the virtual instant of THAT handshake.
+
+type c01rWin struct {
+	FromS int `json:"fromS"` // valid from (start of the case + FromS seconds) ...
+	ForS  int `json:"forS"`  // ... for ForS seconds
+}
+
+type c01rClient struct {
+	Win   c01rWin `json:"win"`
+	InSet bool    `json:"inSet"` // its key is in the server's authorized-key set
+}
+
+type c01rStep struct {
+	SleepS int `json:"sleepS"` // whole seconds slept before this handshake; it then starts at the next half second
+	Client int `json:"client"` // which client identity connects
+}
+
+type c01rCase struct {
+	Hidden   bool         `json:"hidden"`
+	AuthKeys bool         `json:"authKeys"` // server policy: authorized keys allowed in addition to the CA store
+	Server   c01rWin      `json:"server"`
+	Clients  []c01rClient `json:"clients"`
+	Steps    []c01rStep   `json:"steps"`
+}
+
+type c01rStepResult struct {
+	atMs      int64 // virtual time of the handshake, ms since the start of the case
+	cliErr    error
+	accepted  bool
+	delivered bool
+}
+
+func (w c01rWin) validAt(ms int64) bool {
+	return ms >= int64(w.FromS)*1000 && ms < int64(w.FromS+w.ForS)*1000
+}
+
+func c01rScenario(c c01rCase) (out []c01rStepResult) {
+	w := vGetWorld() // only for the ML-KEM key pair (one per process)
+	t0 := time.Now()
+	if t0.Nanosecond() != 0 {
+		panic("verif fixture: the bubble's clock does not start on a whole second")
+	}
+	root := vSigningCert("rc-root", nil)
+	inter := vSigningCert("rc-intermediate", root)
+	store := certs.Store{}
+	store.AddCertificate(root)
+	leaf := func(name string, win c01rWin) (*keys.X25519KeyPair, *certs.Certificate) {
+		kp := keys.GenerateNewX25519KeyPair()
+		lf, err := certs.IssueLeafAt(inter, &certs.Identity{PublicKey: kp.Public, Names: []certs.Name{certs.RawStringName(name)}},
+			t0.Add(time.Duration(win.FromS)*time.Second), time.Duration(win.ForS)*time.Second)
+		vMust(err)
+		return kp, lf
+	}
+	srvKey, srvLeaf := leaf("server.verif.test", c.Server)
+	set := authkeys.NewSyncAuthKeySet()
+	set.AddKey(keys.GenerateNewX25519KeyPair().Public)
+	type ident struct {
+		key  *keys.X25519KeyPair
+		leaf *certs.Certificate
+	}
+	var ids []ident
+	for i, cl := range c.Clients {
+		k, l := leaf(fmt.Sprintf("client-%d", i), cl.Win)
+		ids = append(ids, ident{k, l})
+		if cl.InSet {
+			set.AddKey(k.Public)
+		}
+	}
+	env := vStartServer(ServerConfig{
+		KEMKeyPair: w.SrvKEM, KeyPair: srvKey, Certificate: srvLeaf, Intermediate: inter, HandshakeTimeout: 5 * time.Second, IsHidden: c.Hidden,
+		ClientVerify: &VerifyConfig{Store: store, AuthKeysAllowed: c.AuthKeys, AuthKeys: set}, // CurrentTime zero: the clock decides
+	})
+	defer env.Stop()
+	for i, st := range c.Steps {
+		time.Sleep(time.Duration(st.SleepS) * time.Second)
+		// validity windows begin and end on whole seconds; handshakes happen on half seconds (the fake network has no latency,
+		// so both sides verify at this very instant)
+		now := time.Since(t0)
+		next := now.Truncate(time.Second) + 500*time.Millisecond
+		if next < now {
+			next += time.Second
+		}
+		time.Sleep(next - now)
+		r := c01rStepResult{atMs: time.Since(t0).Milliseconds()}
+		id := ids[st.Client%len(ids)]
+		ccfg := ClientConfig{Exchanger: id.key, Leaf: id.leaf, Intermediate: inter, HSTimeout: 2 * time.Second,
+			Verify: VerifyConfig{Store: store, Name: certs.RawStringName("server.verif.test")}} // CurrentTime zero
+		if c.Hidden {
+			pk := w.SrvKEM.Public
+			ccfg.ServerKEMKey = &pk
+		}
+		cli, _ := env.NewClient(simnet.Addr("10.0.0.2", 41000+i), ccfg)
+		hsDone := make(chan error, 1)
+		go func() { hsDone <- cli.Handshake() }()
+		select {
+		case r.cliErr = <-hsDone:
+		case <-time.After(20 * time.Second):
+			cli.Close()
+			if r.cliErr = <-hsDone; r.cliErr == nil {
+				r.cliErr = fmt.Errorf("handshake did not return within 20 virtual seconds")
+			}
+		}
+		h, err := env.Srv.AcceptTimeout(2 * time.Second)
+		if err == nil && h != nil {
+			r.accepted = true
+			if r.cliErr == nil {
+				if cli.WriteMsg([]byte(fmt.Sprintf("c01 real-clock probe of step %d", i))) == nil {
+					buf := make([]byte, 200)
+					h.SetReadDeadline(time.Now().Add(2 * time.Second))
+					if n, err := h.ReadMsg(buf); err == nil && n > 0 {
+						r.delivered = true
+					}
+				}
+			}
+			h.Close()
+		}
+		cli.Close()
+		out = append(out, r)
+	}
+	return out
+}
+
+func c01rRun(t *testing.T) func(c c01rCase, v *vlib.Verdict) {
+	return func(c c01rCase, v *vlib.Verdict) {
+		var rs []c01rStepResult
+		res := vlib.Bubble(t, 60*time.Second, func() { rs = c01rScenario(c) })
+		if res.Hung {
+			v.Inconclusive = "bubble hung in real time (C01 real clock)"
+			return
+		}
+		mode := map[bool]string{false: "discoverable", true: "hidden"}[c.Hidden]
+		if res.Panic != "" {
+			if res.Leak() || res.Deadlock() {
+				v.Failf("C01:goroutines-left:"+fmt.Sprint(vlib.BlockedHopFrames(res.Stacks)), "after closing clients and server goroutines remain: %v", vlib.BlockedHopFrames(res.Stacks))
+			} else {
+				v.Failf(vlib.PanicSig(res.Panic, res.Stacks), "panic: %s", res.Panic)
+			}
+			return
+		}
+		seenValid := map[string]map[bool]bool{}
+		note := func(who string, ok bool) {
+			if seenValid[who] == nil {
+				seenValid[who] = map[bool]bool{}
+			}
+			seenValid[who][ok] = true
+		}
+		invalidSeen := false
+		for i, r := range rs {
+			st := c.Steps[i]
+			ci := st.Client % len(c.Clients)
+			cl := c.Clients[ci]
+			srvOK := c.Server.validAt(r.atMs)
+			cliTimeOK := cl.Win.validAt(r.atMs)
+			cliOK := cliTimeOK || (c.AuthKeys && cl.InSet)
+			note("server", srvOK)
+			note(fmt.Sprintf("client-%d", ci), cliTimeOK)
+			if !srvOK || !cliTimeOK {
+				invalidSeen = true
+			}
+			where := fmt.Sprintf("handshake #%d of %d at +%d ms (server certificate valid [%d s,%d s), client %d certificate valid [%d s,%d s), in authorized keys: %v, authorized keys allowed: %v)",
+				i, len(rs), r.atMs, c.Server.FromS, c.Server.FromS+c.Server.ForS, ci, cl.Win.FromS, cl.Win.FromS+cl.Win.ForS, cl.InSet, c.AuthKeys)
+			if r.cliErr == nil && !srvOK {
+				v.Failf(fmt.Sprintf("C01:client-accepts-server:%s:time-invalid:real-clock", mode), "Client.Handshake succeeded although the server's certificate is not valid at that instant: %s", where)
+				return
+			}
+			if !cliOK {
+				if !c.Hidden && r.accepted {
+					v.Failf(fmt.Sprintf("C01:server-offers-connection:%s:time-invalid:real-clock", mode), "Accept offered a connection although the client's certificate is not valid at that instant: %s", where)
+					return
+				}
+				if r.delivered {
+					v.Failf(fmt.Sprintf("C01:server-delivers-data:%s:time-invalid:real-clock", mode), "the server delivered application data although the client's certificate is not valid at that instant: %s", where)
+					return
+				}
+			}
+			if srvOK && cliOK && (r.cliErr != nil || !r.accepted || !r.delivered) {
+				v.Failf("C01:sanity:valid-certificates-rejected:"+mode+":real-clock", "both certificates are valid at that instant, yet client err %v, accepted %v, delivered %v: %s", r.cliErr, r.accepted, r.delivered, where)
+				return
+			}
+			switch {
+			case !srvOK:
+				v.Label("real-clock:server-certificate-invalid-at-handshake")
+			case !cliTimeOK && cliOK:
+				v.Label("real-clock:client-certificate-invalid-but-authorized-key")
+			case !cliOK:
+				v.Label("real-clock:client-certificate-invalid-at-handshake")
+			default:
+				v.Label("real-clock:both-valid-at-handshake")
+			}
+		}
+		changed := false
+		var who []string
+		for k, m := range seenValid {
+			if m[true] && m[false] {
+				changed = true
+				who = append(who, strings.SplitN(k, "-", 2)[0])
+			}
+		}
+		sort.Strings(who)
+		v.Label("real-clock:" + mode)
+		if changed {
+			v.Label("real-clock:validity-of-one-identity-differs-between-handshakes:" + strings.Join(who, "+"))
+		}
+		v.NonTrivial = len(rs) >= 2 && invalidSeen
+	}
+}
+
+func c01rGen(t *rapid.T) c01rCase {
+	c := c01rCase{Hidden: rapid.Bool().Draw(t, "hidden")}
+	c.AuthKeys = rapid.SampledFrom([]bool{false, false, false, true}).Draw(t, "authKeys")
+	c.Server = c01rWin{FromS: rapid.SampledFrom([]int{0, 0, 0, 0, 3, 20}).Draw(t, "srvFrom"), ForS: rapid.SampledFrom([]int{100000, 100000, 100000, 5, 30, 100}).Draw(t, "srvFor")}
+	c.Clients = rapid.SliceOfN(rapid.Custom(func(t *rapid.T) c01rClient {
+		return c01rClient{
+			Win:   c01rWin{FromS: rapid.SampledFrom([]int{0, 0, 0, 3, 10, 40}).Draw(t, "from"), ForS: rapid.SampledFrom([]int{2, 4, 10, 30, 100, 100000}).Draw(t, "for")},
+			InSet: rapid.SampledFrom([]bool{false, false, false, true}).Draw(t, "inSet"),
+		}
+	}), 1, 3).Draw(t, "clients")
+	n := len(c.Clients)
+	c.Steps = rapid.SliceOfN(rapid.Custom(func(t *rapid.T) c01rStep {
+		return c01rStep{SleepS: rapid.SampledFrom([]int{0, 0, 1, 3, 8, 25, 70}).Draw(t, "sleep"), Client: rapid.IntRange(0, n-1).Draw(t, "client")}
+	}), 1, 6).Draw(t, "steps")
+	return c
+}
+
+// TestVerifC01RealClock: sequences of handshakes under the (virtual) clock with CurrentTime left zero.
+func TestVerifC01RealClock(t *testing.T) {
+	vlib.Drive(t, vlib.Spec[c01rCase]{ID: "C01", Quick: 2000, Gen: c01rGen, Run: c01rRun(t)})
 }
